@@ -6,6 +6,8 @@ side condition can be checked syntactically; anything else is left alone (and th
      and whose only `return`s end the body or a guard clause, is replaced by h's body with the parameters substituted - the arguments must
      be side-effect-free expressions (names, attribute chains, constants, `self.time`-arithmetic);
   1b. a call `self.h(..)` inside an expression, h's body being a single `return <constructor call>`, is replaced by that expression;
+  1c. `for x in self.h(..):` / `y = self.h(..)`, h straight-line code ending in its only `return <expr>` whose locals do not occur in the
+      caller: h's statements are spliced in front and the call replaced by the returned expression;
   2. `for v in (e1, .., en):` over a tuple / list literal of side-effect-free expressions is unrolled;
   3. a guard clause `if c: A; return` followed by R (in a method that returns nothing) becomes `if c: A  else: R`;
   4. a local bound ONCE to a side-effect-free expression whose ingredients are not re-bound afterwards (`order = cancel.order`,
@@ -125,6 +127,56 @@ class _InlineExpr(ast.NodeTransformer):
 
 def inline_exprs(body, cls):
     return [ast.fix_missing_locations(_InlineExpr(cls).visit(copy.deepcopy(s))) for s in body]
+
+
+def inline_value_helpers(body, cls, caller_names=None):
+    """step 1c: `for x in self.h(..):` / `y = self.h(..)` where h is a plain method whose body is straight-line code ending in its only
+    `return <expr>`, with side-effect-free arguments and locals that do not occur in the caller: h's statements are spliced in front and
+    the call is replaced by the returned expression"""
+    if caller_names is None:
+        caller_names = {n.id for q in body for n in ast.walk(q) if isinstance(n, ast.Name)}
+    out = []
+    for s in body:
+        call = None
+        if isinstance(s, ast.For) and isinstance(s.iter, ast.Call):
+            call = s.iter
+        elif isinstance(s, (ast.Assign, ast.AnnAssign)) and isinstance(getattr(s, "value", None), ast.Call):
+            call = s.value
+        done = False
+        if call is not None and isinstance(call.func, ast.Attribute) and isinstance(call.func.value, ast.Name) and call.func.value.id == "self":
+            hs = [n for n in cls.body if isinstance(n, ast.FunctionDef) and n.name == call.func.attr and not n.decorator_list]
+            if len(hs) == 1 and all(pure(a) for a in call.args) and all(k.arg and pure(k.value) for k in call.keywords):
+                h = hs[0]
+                a = h.args
+                params = [x.arg for x in a.args][1:]
+                hb = _nodoc(h.body)
+                rets = [n for q in hb for n in ast.walk(q) if isinstance(n, ast.Return)]
+                locs = {n.id for q in hb for n in ast.walk(q) if isinstance(n, ast.Name) and isinstance(n.ctx, ast.Store)}
+                if (len(hb) >= 2 and len(rets) == 1 and rets[0] is hb[-1] and hb[-1].value is not None
+                        and not any(isinstance(n, (ast.Yield, ast.YieldFrom)) for q in hb for n in ast.walk(q))
+                        and not (a.vararg or a.kwarg or a.kwonlyargs or a.defaults) and len(call.args) <= len(params)
+                        and not (locs & (caller_names | set(params)))):
+                    m = dict(zip(params, call.args))
+                    for k in call.keywords:
+                        m[k.arg] = k.value
+                    if sorted(m) == sorted(params):
+                        out += subst(hb[:-1], m)
+                        ret = subst([ast.Expr(value=hb[-1].value)], m)[0].value
+                        q = copy.deepcopy(s)
+                        if isinstance(q, ast.For):
+                            q.iter = ret
+                            q.body = inline_value_helpers(q.body, cls, caller_names)
+                        else:
+                            q.value = ret
+                        out.append(ast.fix_missing_locations(q))
+                        done = True
+        if not done:
+            if isinstance(s, (ast.If, ast.For)):
+                s = copy.deepcopy(s)
+                s.body = inline_value_helpers(s.body, cls, caller_names)
+                s.orelse = inline_value_helpers(s.orelse, cls, caller_names)
+            out.append(s)
+    return out
 
 
 def unroll(body):
@@ -287,10 +339,13 @@ def split_cells(body):
     return out
 
 
-def normalise(fn, cls, returns_none, keep=()):
+def normalise(fn, cls, returns_none, keep=(), only_inlining=False):
     body = _nodoc(fn.body)
     body = inline_helpers(body, cls)
     body = inline_exprs(body, cls)
+    body = inline_value_helpers(body, cls)
+    if only_inlining:
+        return [ast.fix_missing_locations(s) for s in body]
     body = unroll(body)
     if returns_none:
         body = guards(body)
